@@ -1,83 +1,172 @@
 /-
-C09 — kernel-checked witnesses of the known finding C09-placemarker (chibicc's `subst` differs from C11 6.10.3.3) and,
-as a record, of the repaired defect C09-stringize-backslash-outside-literal.
+C09 — kernel-checked witnesses.  No known finding of C09 is left: both defects of `subst` against C11 6.10.3.2/6.10.3.3
+were repaired in /repo, and the witnesses are kept here as a record of the OLD code against the specification and the
+present code.
 
-1. C09-placemarker.  chibicc has no placemarker token.  `#define t(x,y,z) x ## y ## z` with `t(,,)` — the standard's
-   own example (6.10.3.5 EXAMPLE 5) — must expand to nothing (placemarker ## placemarker = placemarker, again, then
-   the placemarker is removed); `subst` stops with "'##' cannot appear at start of macro expansion".
+1. REPAIRED (`fix:` 5a15c0f): C09-placemarker.  chibicc had no placemarker.  `#define t(x,y,z) x ## y ## z` with `t(,,)` —
+   the standard's own example (6.10.3.5 EXAMPLE 5) — must expand to nothing (placemarker ## placemarker = placemarker,
+   again, then the placemarker is removed); the old `subst` (`substLoopOld`, Lemmas/C09Placemarker.lean) stopped with
+   "'##' cannot appear at start of macro expansion", and with a token in front of the chain, `a x ## y ## z` with `(,,3)`,
+   it silently pasted that token to `3`.  The present `subst` is right on both — and on every C11 replacement list
+   (`Props.C09.C09_subst_spec`).
 2. REPAIRED (`fix:` 6fecbd6): C09-stringize-backslash-outside-literal.  `quote_string` escaped every `\` and `"` of the
    stringized text; C11 6.10.3.2p2 only those inside string literals and character constants.  `#define str(s) # s` with
    `str(: @\n)` (6.10.3.5 EXAMPLE 4) must give `": @\n"`; the old `subst` gave `": @\\n"`, the present one is right.
+3. Why `C09_subst_spec_Statement` (all constructs) is still not a theorem: outside C11 the model and the specification
+   (= gcc 12) read the two extensions differently (`statement_fails_outside_C11`).  Latitude, not a finding.
 
-Both are evaluated by the kernel (`decide`) on the model and on the specification.
+All are evaluated by the kernel (`decide`) on the model and on the specification.
 -/
 import ChibiVerif.Props.C09
 import ChibiVerif.Lemmas.C09Stringize
+import ChibiVerif.Lemmas.C09Placemarker
+import ChibiVerif.Lemmas.C09PlacemarkerExact
 
 namespace ChibiVerif.Findings.C09
 open ChibiVerif.PP ChibiVerif.Props.C09
 
 private def tk (s : String) (k : Kind := .ident) (sp : Bool := false) : Tok := { kind := k, text := s, hasSpace := sp }
 
+/-! ### REPAIRED: C09-placemarker  (`fix:` 5a15c0f in /repo) -/
+
+/-- `subst` of the model BEFORE the repair, run like `Props.C09.modelSubst` -/
+def modelSubstOld (lx : String → LexOne) (full : List Tok → List Tok) (body : List Tok) (args : List MacroArg) :
+    Except Err (List Tok) :=
+  (substOld lx (fun st ts => .ok (full ts, st)) {} body args false).map (·.1)
+
 /-- replacement list of `#define t(x,y,z) x ## y ## z` -/
 def tBody : List Tok := [tk "x" .ident true, tk "##" .punct true, tk "y" .ident true, tk "##" .punct true, tk "z" .ident true]
 /-- the arguments of `t(,,)` -/
 def tArgs : List MacroArg := [{ name := "x", toks := [] }, { name := "y", toks := [] }, { name := "z", toks := [] }]
 
-/-- the witness lies in the excluded region -/
-theorem witness_in_region : ¬ NoPlacemarkerChain tBody tArgs := by decide
+/-- the witness lies in the former region (`p ## q ##` with both arguments empty) and is C11 -/
+theorem witness_in_region : ¬ NoPlacemarkerChain tBody tArgs ∧ isC11 tBody tArgs = true := by decide
 
-/-- the model rejects `t(,,)` … -/
-theorem model_rejects : modelSubst Lex.lexOne id tBody tArgs = .error .pasteAtStart := by decide
+/-- the OLD model rejected `t(,,)` … -/
+theorem old_model_rejects : modelSubstOld Lex.lexOne id tBody tArgs = .error .pasteAtStart := by decide
 
-/-- … the standard defines its replacement: no tokens -/
+/-- … the standard defines its replacement: no tokens … -/
 theorem spec_accepts : ChibiVerif.Spec.PPSpec.subst Lex.lexOne id true tBody tArgs = .ok [] := by decide
 
-/-- **known finding C09-placemarker**: the full statement is false -/
-theorem C09_finding_placemarker : ¬ C09_subst_spec_Statement := by
+/-- … and the present model produces it -/
+theorem model_accepts : modelSubst Lex.lexOne id tBody tArgs = .ok [] := by decide
+
+/-- **repaired** (was known finding C09-placemarker, `C09_finding_placemarker`): the statement `C09_subst_spec_Statement`
+    with the OLD `subst` in place of the present one is false -/
+theorem repaired_placemarker :
+    ¬ ∀ (lx : String → LexOne) (full : List Tok → List Tok) (body : List Tok) (args : List MacroArg) (s : List Tok),
+      ChibiVerif.Spec.PPSpec.subst lx full true body args = .ok s →
+        ∃ m, modelSubstOld lx full body args = .ok m ∧ spell m = spell s := by
   intro h
   obtain ⟨m, hm, _⟩ := h Lex.lexOne id tBody tArgs [] spec_accepts
-  rw [model_rejects] at hm
+  rw [old_model_rejects] at hm
   cases hm
 
-/-- the whole pipeline agrees: from the empty table plus `t`, the model's `preprocess2` stops with the diagnostic,
-    the specification's `expand` yields the empty token list -/
+/-- the whole pipeline: from the empty table plus `t`, the model's `preprocess2` and the specification's `expand` both
+    yield the empty token list for `t(,,)` -/
 theorem pipeline :
     expand 50 [("t", .fn ["x", "y", "z"] none tBody)]
-      [tk "t", tk "(" .punct, tk "," .punct, tk "," .punct, tk ")" .punct] = .error .pasteAtStart ∧
+      [tk "t", tk "(" .punct, tk "," .punct, tk "," .punct, tk ")" .punct] = .ok [] ∧
     ChibiVerif.Spec.PPSpec.expand 50 [("t", .fn ["x", "y", "z"] none tBody)]
       [tk "t", tk "(" .punct, tk "," .punct, tk "," .punct, tk ")" .punct] = .ok [] := by decide
 
-/-- one token to the right the algorithm is right again: `t(,,12)`-shapes with a non-empty middle, e.g. `t(,4,5)` -/
-theorem neighbour_ok :
-    (modelSubst Lex.lexOne id tBody
-      [{ name := "x", toks := [] }, { name := "y", toks := [tk "4" .num] }, { name := "z", toks := [tk "5" .num] }]).map spell
-      = .ok [(.num, "45")] := by decide
+/-- C11 6.10.3.5 EXAMPLE 5 in full: `t(1,2,3), t(,4,5), t(6,,7), t(8,9,), t(10,,), t(,11,), t(,,12)` gives
+    `123, 45, 67, 89, 10, 11, 12` — old model, present model and specification, argument list by argument list -/
+theorem example5 :
+    let arg (x y z : List Tok) : List MacroArg := [{ name := "x", toks := x }, { name := "y", toks := y }, { name := "z", toks := z }]
+    let n (s : String) : List Tok := [tk s .num]
+    let cases : List (List MacroArg) := [arg (n "1") (n "2") (n "3"), arg [] (n "4") (n "5"), arg (n "6") [] (n "7"),
+      arg (n "8") (n "9") [], arg (n "10") [] [], arg [] (n "11") [], arg [] [] (n "12")]
+    let want : List (Except Err (List (Kind × String))) :=
+      ["123", "45", "67", "89", "10", "11", "12"].map fun s => .ok [(.num, s)]
+    cases.map (fun a => (modelSubst Lex.lexOne id tBody a).map spell) = want ∧
+    cases.map (fun a => (ChibiVerif.Spec.PPSpec.subst Lex.lexOne id true tBody a).map spell) = want ∧
+    -- the old code was right on the first six and wrong on the last (`t(,,12)`: "'##' cannot appear at start …")
+    cases.map (fun a => (modelSubstOld Lex.lexOne id tBody a).map spell) = want.take 6 ++ [.error .pasteAtStart] := by decide
 
-/-! #### how far the region `¬ NoPlacemarkerChain` is from exact
+/-! #### inside the former region the defect was not only the diagnostic
 
-`#define u(x,y,z) a x ## y ## z`.  Inside the region the defect is not only the diagnostic at the start of a replacement
-list: with a token in front, `u(,,3)` silently pastes that token to `3` (`a3` instead of `a 3`).  And the region is not
-tight: `u(,,)` lies in it, yet `subst` gives what the standard gives (`a`), because every remaining operand of the chain
-is empty too and something was emitted before.  A narrower region would have to say "some operand after `p ## q` is
-non-empty, or nothing was emitted before the chain" — the second half depends on how earlier arguments macro-expand,
-so it is not a predicate of replacement list and arguments alone; the region is kept as it is. -/
+`#define u(x,y,z) a x ## y ## z`.  With a token in front, `u(,,3)` silently pasted that token to `3` (`a3` instead of
+`a 3`).  The former region `¬ NoPlacemarkerChain` was not tight: `u(,,)` lies in it, yet the old `subst` gave what the
+standard gives (`a`), because every remaining operand of the chain is empty too and something was emitted before. -/
 
 def uBody : List Tok := tk "a" .ident true :: tBody
+def uArgs3 : List MacroArg := [{ name := "x", toks := [] }, { name := "y", toks := [] }, { name := "z", toks := [tk "3" .num] }]
 
-theorem chain_with_prefix_pastes_wrongly :
-    ¬ NoPlacemarkerChain uBody [{ name := "x", toks := [] }, { name := "y", toks := [] }, { name := "z", toks := [tk "3" .num] }] ∧
-    (modelSubst Lex.lexOne id uBody
-      [{ name := "x", toks := [] }, { name := "y", toks := [] }, { name := "z", toks := [tk "3" .num] }]).map spell
-      = .ok [(.ident, "a3")] ∧
-    (ChibiVerif.Spec.PPSpec.subst Lex.lexOne id true uBody
-      [{ name := "x", toks := [] }, { name := "y", toks := [] }, { name := "z", toks := [tk "3" .num] }]).map spell
-      = .ok [(.ident, "a"), (.num, "3")] := by decide
+/-- **repaired**: `a x ## y ## z` with `(,,3)`: the old code `a3`, the standard and the present code `a 3` -/
+theorem repaired_chain_with_prefix :
+    ¬ NoPlacemarkerChain uBody uArgs3 ∧
+    (modelSubstOld Lex.lexOne id uBody uArgs3).map spell = .ok [(.ident, "a3")] ∧
+    (ChibiVerif.Spec.PPSpec.subst Lex.lexOne id true uBody uArgs3).map spell = .ok [(.ident, "a"), (.num, "3")] ∧
+    (modelSubst Lex.lexOne id uBody uArgs3).map spell = .ok [(.ident, "a"), (.num, "3")] := by decide
 
-theorem region_not_tight :
+theorem old_region_not_tight :
     ¬ NoPlacemarkerChain uBody tArgs ∧
+    (modelSubstOld Lex.lexOne id uBody tArgs).map spell = .ok [(.ident, "a")] ∧
     (modelSubst Lex.lexOne id uBody tArgs).map spell = .ok [(.ident, "a")] ∧
     (ChibiVerif.Spec.PPSpec.subst Lex.lexOne id true uBody tArgs).map spell = .ok [(.ident, "a")] := by decide
+
+/-- outside the former region nothing changed: `t(,4,5)` (a non-empty middle) -/
+theorem neighbour_unchanged :
+    let a : List MacroArg := [{ name := "x", toks := [] }, { name := "y", toks := [tk "4" .num] }, { name := "z", toks := [tk "5" .num] }]
+    NoPlacemarkerChain tBody a ∧
+    (modelSubstOld Lex.lexOne id tBody a).map spell = .ok [(.num, "45")] ∧
+    (modelSubst Lex.lexOne id tBody a).map spell = .ok [(.num, "45")] := by decide
+
+/-- **the repair is conservative**: outside the former region (no `p ## q ##` with both arguments empty) the present `subst`
+    and the one before `fix:` 5a15c0f are the same function — for every lexer, pre-expander, replacement list (`__VA_OPT__`
+    contents included) and argument list: same tokens, same diagnostics (Lemmas/C09PlacemarkerExact.lean).  The former
+    known-finding region is exactly where the repair changed the code's behaviour. -/
+theorem repair_changes_only_the_region (lx : String → LexOne) (full : List Tok → List Tok) (body : List Tok)
+    (args : List MacroArg) (h : NoPlacemarkerChain body args) :
+    modelSubst lx full body args = modelSubstOld lx full body args := by
+  unfold modelSubst modelSubstOld
+  rw [subst_eq_old lx _ _ body args false h]
+
+/-- non-vacuity: `a x ## y ## z b` with `(1,,3)` lies outside the region (only one empty argument in a row) -/
+example : NoPlacemarkerChain uBody [{ name := "x", toks := [tk "1" .num] }, { name := "y", toks := [] }, { name := "z", toks := [tk "3" .num] }] := by
+  decide
+
+/-- the loop of the repair stops in front of a last `##` (`rhs->next->next->kind != TK_EOF`): `#define e(x,y) x ## y ##`
+    with `e(,)` is still the constraint violation of 6.10.3.3p1 for model and specification
+    (the model names the `##` it trips over: "at start", nothing was emitted; the specification checks the ends first) -/
+theorem trailing_paste_still_rejected :
+    let b : List Tok := [tk "x", tk "##" .punct, tk "y", tk "##" .punct]
+    let a : List MacroArg := [{ name := "x", toks := [] }, { name := "y", toks := [] }]
+    modelSubst Lex.lexOne id b a = .error .pasteAtStart ∧
+    ChibiVerif.Spec.PPSpec.subst Lex.lexOne id true b a = .error .pasteAtEnd := by decide
+
+/-! ### outside C11: why `C09_subst_spec_Statement` is not a theorem as it stands (latitude, no finding) -/
+
+/-- the complete macro replacement used by the two witnesses: `M` becomes `1`, `E` disappears -/
+def fullME (ts : List Tok) : List Tok :=
+  ts.flatMap fun t => if t.text == "M" then [tk "1" .num] else if t.text == "E" then [] else [t]
+
+/-- (1) GNU `, ## __VA_ARGS__` with a variable argument `M`: chibicc substitutes the macro-replaced argument (`a , 1`),
+    the specification — gcc's documented behaviour — the argument as written (`a , M`; it is replaced on rescanning, so
+    the final output agrees unless `M` is painted).  (2) `__VA_OPT__(b)` with a variable argument `E` that vanishes under
+    macro replacement: chibicc tests the argument as written (`b`), the specification (C2x, gcc 12) the replaced one
+    (nothing).  Neither construct has C11 text; the check counts such runs and does not compare them. -/
+theorem statement_fails_outside_C11 :
+    let gBody : List Tok := [tk "a", tk "," .punct, tk "##" .punct, tk "__VA_ARGS__"]
+    let oBody : List Tok := [tk "__VA_OPT__", tk "(" .punct, tk "b", tk ")" .punct]
+    let va (ts : List Tok) : List MacroArg := [{ name := "__VA_ARGS__", isVa := true, toks := ts }]
+    isC11 gBody (va [tk "M"]) = false ∧ isC11 oBody (va [tk "E"]) = false ∧
+    (ChibiVerif.Spec.PPSpec.subst Lex.lexOne fullME true gBody (va [tk "M"])).map spell = .ok [(.ident, "a"), (.punct, ","), (.ident, "M")] ∧
+    (modelSubst Lex.lexOne fullME gBody (va [tk "M"])).map spell = .ok [(.ident, "a"), (.punct, ","), (.num, "1")] ∧
+    (ChibiVerif.Spec.PPSpec.subst Lex.lexOne fullME true oBody (va [tk "E"])).map spell = .ok [] ∧
+    (modelSubst Lex.lexOne fullME oBody (va [tk "E"])).map spell = .ok [(.ident, "b")] := by decide
+
+theorem C09_subst_spec_Statement_false : ¬ C09_subst_spec_Statement := by
+  intro h
+  obtain ⟨m, hm, hs⟩ := h Lex.lexOne fullME [tk "a", tk "," .punct, tk "##" .punct, tk "__VA_ARGS__"]
+    [{ name := "__VA_ARGS__", isVa := true, toks := [tk "M"] }] [tk "a", tk "," .punct, tk "M"] (by decide)
+  have hm' : modelSubst Lex.lexOne fullME [tk "a", tk "," .punct, tk "##" .punct, tk "__VA_ARGS__"]
+      [{ name := "__VA_ARGS__", isVa := true, toks := [tk "M"] }] = .ok [tk "a", tk "," .punct, tk "1" .num] := by decide
+  rw [hm'] at hm
+  cases hm
+  revert hs
+  decide
 
 /-! ### REPAIRED: C09-stringize-backslash-outside-literal  (`fix:` 6fecbd6 in /repo)
 
